@@ -497,7 +497,8 @@ func (m *monC07) Event(ev *hermes.VerifEvent, rc *RunCtx) {
 			}
 		}
 		cnt := map[string]float64{"dissolved fertiliser": g.UMS, "applied fertiliser": g.DSUMM, "ammonium applied": g.NH4Sum, "ammonium nitrified": g.NH4UMS,
-			"cumulative uptake": g.AUFNASUM, "drain loss": g.DRAINLOSS, "denitrification": g.CUMDENIT, "N2O nitrification": g.N2onitsum, "fixation": g.NFIXSUM}
+			"cumulative uptake": g.AUFNASUM, "drain loss": g.DRAINLOSS, "denitrification": g.CUMDENIT, "N2O nitrification": g.N2onitsum, "fixation": g.NFIXSUM,
+			"N2O denitrification": g.N2Odencum, "N2O denitrification of the day": g.N2OdenDaily}
 		if g.OUTN == g.N {
 			cnt["leaching"] = g.OUTSUM
 		}
